@@ -201,7 +201,7 @@ def _model_variants(case):
             if i and v["v"].startswith(pref):
                 idx.append(i)
                 break
-    return idx
+    return sorted(set(idx))
 
 
 def impl(case):
